@@ -293,6 +293,16 @@ fn op_name(name: &[u8]) -> String {
     r.unwrap_or_else(|_| "PANIC".to_string())
 }
 
+/// the first packet of `b` through `Command::new` (type tables, routing key, slot), as the session does for every request
+fn op_command(b: &[u8]) -> String {
+    let pkt = match catch_unwind(AssertUnwindSafe(|| decode_one(b))) { Ok(Some(p)) => p, Ok(None) => return "none".to_string(), Err(_) => return "PANIC".to_string() };
+    let r = catch_unwind(AssertUnwindSafe(|| {
+        let c = Command::new(pkt);
+        format!("{:?} {:?} slot={}", c.get_type(), c.get_data_cmd_type(), c.get_slot().map(|x| x.to_string()).unwrap_or_else(|| "-".to_string()))
+    }));
+    r.unwrap_or_else(|_| "PANIC".to_string())
+}
+
 fn op_clustername(b: &[u8]) -> &'static str {
     match std::str::from_utf8(b) {
         Err(_) => "nonutf8",
@@ -1319,6 +1329,45 @@ fn gen_name(rng: &mut Rng) -> Gen {
     g(cmd_bytes(&c), "name")
 }
 
+/// negative bulk / array lengths other than -1 (all of them are nil) at every position: command name, key, value, nested
+fn gen_negative_len(rng: &mut Rng) -> Gen {
+    let neg = |rng: &mut Rng, arr: bool| -> Vec<u8> {
+        let n = *rng.pick(&["-2", "-9", "-9223372036854775808", "-1", "-0", "-00", "-9223372036854775809", "-2147483649"]);
+        let mut v = format!("{}{}\r\n", if arr { '*' } else { '$' }, n).into_bytes();
+        if n == "-0" || n == "-00" { if !arr { v.extend_from_slice(b"\r\n"); } }
+        v
+    };
+    let mut c = valid_cmd(rng);
+    while c.len() < 3 { c.push(key(rng)); }
+    let pos = rng.below(c.len() as u64) as usize;
+    let arr = rng.chance(1, 3);
+    let raw = neg(rng, arr);
+    let mut b = match rng.below(5) {
+        0 => neg(rng, true),                                               // the whole request is a nil array of length -n
+        1 => { let mut v = s("*2\r\n"); v.extend(neg(rng, false)); v.extend(neg(rng, true)); v }
+        2 => { let mut v = s("*2\r\n$3\r\nGET\r\n*2\r\n"); v.extend(neg(rng, false)); v.extend(neg(rng, true)); v }   // nested
+        _ => elems_to_packet(&c, &[(pos, raw)]),
+    };
+    if rng.chance(1, 2) { b.extend(cmd_bytes(&[s("PING")])); }
+    g(b, "negative-length")
+}
+
+/// every negative length at every position of a small request, deterministically
+fn negative_len_sweep() -> Vec<Vec<u8>> {
+    let mut out = vec![];
+    for n in ["-2", "-9", "-9223372036854775808", "-0", "-2147483649"] {
+        for arr in [false, true] {
+            let mut raw = format!("{}{}\r\n", if arr { '*' } else { '$' }, n).into_bytes();
+            if n == "-0" && !arr { raw.extend_from_slice(b"\r\n"); }
+            let c = vec![s("SET"), s("k"), s("v")];
+            for pos in 0..3 { out.push(elems_to_packet(&c, &[(pos, raw.clone())])); }
+            let mut nested = s("*2\r\n$3\r\nGET\r\n*2\r\n$1\r\na\r\n"); nested.extend_from_slice(&raw); out.push(nested);
+            let mut whole = raw.clone(); whole.extend(cmd_bytes(&[s("PING")])); out.push(whole);
+        }
+    }
+    out
+}
+
 fn gen_nonarray(rng: &mut Rng) -> Gen {
     let b = match rng.below(7) {
         0 => s("+OK\r\n"),
@@ -1589,6 +1638,19 @@ fn run_inproc_op(toks: &[&str], st: &mut Streams, op: &str) {
             }
             None => "bad-op".to_string(),
         },
+        ["command", h] => match unhex(h) {
+            Some(b) if inproc_safe(&b) => {
+                let r = op_command(&b);
+                st.stats.count(if r == "PANIC" { "out.command.PANIC" } else { "out.command.ok" });
+                if r == "PANIC" {
+                    let c = st.cases;
+                    report_failure(&mut st.stats, c, "decoding a request and building its Command panicked (what handle_session does for every packet)", "", vec![op.to_string()]);
+                }
+                r
+            }
+            Some(_) => "skipped-unsafe".to_string(),
+            None => "bad-op".to_string(),
+        },
         ["hashtag", h] => match unhex(h) {
             Some(k) => {
                 let r = op_hashtag(&k);
@@ -1618,7 +1680,7 @@ fn run_inproc_op(toks: &[&str], st: &mut Streams, op: &str) {
         _ => "bad-op".to_string(),
     };
     if out == "PANIC" && !op.starts_with("parse") && !op.starts_with("decode") && !op.starts_with("slowlog") && !op.starts_with("rangemap")
-        && !op.starts_with("setrepl") && !op.starts_with("setmeta") && !op.starts_with("hashtag") && !op.starts_with("cfgset") {
+        && !op.starts_with("setrepl") && !op.starts_with("setmeta") && !op.starts_with("hashtag") && !op.starts_with("cfgset") && !op.starts_with("command") {
         let c = st.cases;
         report_failure(&mut st.stats, c, "in-process operation panicked", "", vec![op.to_string()]);
     }
@@ -1664,6 +1726,12 @@ fn inproc_stream(args: &Args, rng: &mut Rng) {
         let toks: Vec<&str> = op.split(' ').collect();
         run_inproc_op(&toks, &mut st, &op);
     }
+    for b in negative_len_sweep() {
+        st.stats.count("gen.command.negative-length.sweep");
+        let op = format!("command {}", hex(&b));
+        let toks: Vec<&str> = op.split(' ').collect();
+        run_inproc_op(&toks, &mut st, &op);
+    }
     let mut fields = config_fields();
     fields.extend(["SLOWLOG_SAMPLE_RATE", "Slowlog_Log_Slower_Than", "nope", ""].iter().map(|x| x.to_string()));
     for f in &fields {
@@ -1682,7 +1750,10 @@ fn inproc_stream(args: &Args, rng: &mut Rng) {
             let l = cfg_line(es, false);
             st.op(&l, "ok");
         }
-        let (op, class): (String, &str) = match rng.below(26) {
+        let (op, class): (String, &str) = match rng.below(29) {
+            26 => (format!("command {}", hex(&gen_negative_len(rng).bytes)), "command.negative-length"),
+            27 => (format!("{} {}", if rng.chance(1, 2) { "parse" } else { "decode" }, hex(&gen_negative_len(rng).bytes)), "parse.negative-length"),
+            28 => { let x = match rng.below(4) { 0 => gen_eval(rng).bytes, 1 => gen_multikey(rng).bytes, 2 => gen_name(rng).bytes, _ => gen_pipeline(rng).bytes }; (format!("command {}", hex(&x)), "command.other") }
             23 | 24 => (format!("hashtag {}", hex(&brace_key(rng))), "hashtag.random"),
             25 => { let fs = config_fields(); let vs = cfg_values(); let mut v = rng.pick(&vs).clone(); if rng.chance(1, 4) { v = mutate(rng, &v); }
                     (format!("cfgset {} {}", hex(rng.pick(&fs).as_bytes()), hex(&v)), "cfgset.random") }
@@ -1855,8 +1926,34 @@ fn run_child_conn(cx: &mut ChildCtx, st: &mut Streams, input: &[u8], hint: Optio
 }
 
 /// `UMCTL SETCLUSTER` with one MIGRATING range list on a local node, textual or compressed
-fn setcluster_cmd(cx: &mut ChildCtx, textual: bool, rs: &[(usize, usize)]) -> Option<Vec<u8>> {
+fn setcluster_cmd(cx: &mut ChildCtx, textual: bool, place: &str, rs: &[(usize, usize)]) -> Option<Vec<u8>> {
     cx.epoch += 1;
+    if place != "tag" {
+        // an otherwise fully valid and acceptable SETCLUSTER (newer epoch, node on the announce host) whose untagged
+        // ranges sit on the local node (`local`) or on a peer (`peer`); the other side gets an ordinary range
+        let node = format!("127.0.0.1:{}", cx.backend_port);
+        let peer = "127.0.0.1:9".to_string();
+        let ordinary = vec![(0usize, 100usize)];
+        let (lr, pr): (&[(usize, usize)], &[(usize, usize)]) = if place == "local" { (rs, &ordinary) } else { (&ordinary, rs) };
+        if textual {
+            let mut c = vec![s("UMCTL"), s("SETCLUSTER"), s("v2"), cx.epoch.to_string().into_bytes(), s("FORCE"), s("mydb"),
+                node.into_bytes(), lr.len().to_string().into_bytes()];
+            for (a, b) in lr { c.push(format!("{}-{}", a, b).into_bytes()); }
+            c.push(s("PEER")); c.push(peer.into_bytes()); c.push(pr.len().to_string().into_bytes());
+            for (a, b) in pr { c.push(format!("{}-{}", a, b).into_bytes()); }
+            return Some(cmd_bytes(&c));
+        }
+        let mut local = HashMap::new();
+        local.insert(node, vec![SlotRange { range_list: raw_range_list(lr), tag: SlotRangeTag::None }]);
+        let mut peers = HashMap::new();
+        peers.insert(peer, vec![SlotRange { range_list: raw_range_list(pr), tag: SlotRangeTag::None }]);
+        let m = ProxyClusterMeta::new(cx.epoch, ClusterMapFlags { force: true, compress: true },
+            ClusterName::try_from("mydb").ok()?, local, peers, ClusterConfig::default());
+        let args = m.to_compressed_args().ok()?;
+        let mut c = vec![s("UMCTL"), s("SETCLUSTER")];
+        c.extend(args.into_iter().map(|a| a.into_bytes()));
+        return Some(cmd_bytes(&c));
+    }
     let node = format!("127.0.0.1:{}", cx.backend_port);
     let me = format!("127.0.0.1:{}", cx.proxy.port);
     let meta = MigrationMeta { epoch: cx.epoch, src_proxy_address: me, src_node_address: node.clone(),
@@ -1879,10 +1976,12 @@ fn setcluster_cmd(cx: &mut ChildCtx, textual: bool, rs: &[(usize, usize)]) -> Op
     }
 }
 
-fn run_child_setcluster(cx: &mut ChildCtx, st: &mut Streams, textual: bool, rs: &[(usize, usize)]) {
-    let op = format!("setcluster {} {}", if textual { "t" } else { "z" },
+/// `place`: "" = the old op form (a MIGRATING range, no follow-up), "tag" | "local" | "peer" = where the ranges go; these
+/// are followed by a second, ordinary SETCLUSTER from another connection (it needs the metadata lock) and by probes
+fn run_child_setcluster(cx: &mut ChildCtx, st: &mut Streams, textual: bool, place: &str, rs: &[(usize, usize)]) {
+    let op = format!("setcluster {}{} {}", if textual { "t" } else { "z" }, if place.is_empty() { String::new() } else { format!(" {}", place) },
         rs.iter().map(|(a, b)| format!("{}-{}", a, b)).collect::<Vec<_>>().join(" "));
-    let data = match setcluster_cmd(cx, textual, rs) { Some(d) => d, None => { st.op(&op, "bad-op"); return; } };
+    let data = match setcluster_cmd(cx, textual, if place.is_empty() { "tag" } else { place }, rs) { Some(d) => d, None => { st.op(&op, "bad-op"); return; } };
     let t0 = Instant::now();
     let mut line = "stalled".to_string();
     if let Ok(mut c) = TcpStream::connect(("127.0.0.1", cx.proxy.port)) {
@@ -1917,7 +2016,23 @@ fn run_child_setcluster(cx: &mut ChildCtx, st: &mut Streams, textual: bool, rs: 
         let fid = if !textual && pred_f16d(rs) && (pl.contains("raw_vec") || pl.contains("capacity overflow") || pl.contains("cluster.rs")) { "F16d" } else { "" };
         report_failure(&mut st.stats, case, &format!("a session task panicked inside set_meta: {}", pl), fid, replay.clone());
     }
-    if line == "ok" { st.stats.nontrivial_case(&op); }
+    if !place.is_empty() && line != "stalled" && line != "aborted" {
+        // the metadata lock must be free again and ordinary traffic must go on
+        let second = match setcluster_cmd(cx, true, "local", &[(0, 16383)]) {
+            Some(d) => match TcpStream::connect(("127.0.0.1", cx.proxy.port)) {
+                Ok(mut c2) => { let r = exchange(&mut c2, &d, 1, 5000); if r == "alive 1" { "ok".to_string() } else { r } }
+                Err(_) => "refused".to_string(),
+            },
+            None => "bad-op".to_string(),
+        };
+        let probes = { let mut b = cmd_bytes(&[s("CLUSTER"), s("NODES")]); b.extend(cmd_bytes(&[s("GET"), s("k")])); b.extend(cmd_bytes(&[s("UMCTL"), s("GETEPOCH")])); b };
+        let pr = match TcpStream::connect(("127.0.0.1", cx.proxy.port)) { Ok(mut c3) => exchange(&mut c3, &probes, 3, 5000), Err(_) => "refused".to_string() };
+        if second != "ok" || pr != "alive 3" {
+            report_failure(&mut st.stats, case, &format!("after UMCTL SETCLUSTER ({}): a second SETCLUSTER from another connection: {}, probes: {} (metadata lock held / proxy wedged)", line, second, pr), "", replay.clone());
+        }
+        line = format!("{} second={}", line, if pr == "alive 3" { second } else { format!("{}/probes-{}", second, pr.replace(' ', "-")) });
+    }
+    if line.starts_with("ok") { st.stats.nontrivial_case(&op); }
     st.op(&op, &line);
     // the installed migration task (and a possible spinning worker) must not leak into later inputs
     cx.restart();
@@ -2033,10 +2148,13 @@ fn child_stream(args: &Args, rng: &mut Rng) {
                     (Some(f), Some(v)) => run_child_cfgconn(&mut cx, &mut st, &f, &v),
                     _ => st.op(&l, "bad-op"),
                 },
-                ["setcluster", form, rest @ ..] => match parse_ranges(rest) {
-                    Some(rs) => run_child_setcluster(&mut cx, &mut st, *form == "t", &rs),
-                    None => st.op(&l, "bad-op"),
-                },
+                ["setcluster", form, rest @ ..] => {
+                    let (place, rtoks): (&str, &[&str]) = match rest.first() { Some(&p @ ("tag" | "local" | "peer")) => (p, &rest[1..]), _ => ("", rest) };
+                    match parse_ranges(rtoks) {
+                        Some(rs) => run_child_setcluster(&mut cx, &mut st, *form == "t", place, &rs),
+                        None => st.op(&l, "bad-op"),
+                    }
+                }
                 _ => run_inproc_op(&toks, &mut st, &l),
             }
         }
@@ -2059,7 +2177,8 @@ fn child_stream(args: &Args, rng: &mut Rng) {
             38..=44 => gen_umctl(rng),
             45..=51 => gen_multikey(rng),
             52..=56 => gen_name(rng),
-            57..=60 => gen_nonarray(rng),
+            57..=58 => gen_nonarray(rng),
+            59..=60 => gen_negative_len(rng),
             61..=66 => gen_invalid(rng),
             67..=73 => gen_truncated(rng),
             74..=77 => gen_bulk_len(rng),
@@ -2120,6 +2239,18 @@ fn child_stream(args: &Args, rng: &mut Rng) {
             }
             run_child_conn(&mut cx, &mut st, &b, None, "key-shape");
         }
+    }
+    // negative bulk / array lengths other than -1 at every position
+    st.case();
+    let l = cfg_line(es, ar);
+    st.op(&l, "ok");
+    let ok = cx.enter_phase("post");
+    st.op("phase post", if ok { "ok" } else { "phase-failed" });
+    for b in negative_len_sweep() {
+        st.stats.count("gen.negative-length.sweep");
+        let mut b = b;
+        b.extend(cmd_bytes(&[s("GET"), s("k")]));
+        run_child_conn(&mut cx, &mut st, &b, None, "negative-length");
     }
     // CONFIG SET of every field x boundary value, followed by ordinary traffic on three connections
     st.case();
@@ -2206,7 +2337,25 @@ fn child_stream(args: &Args, rng: &mut Rng) {
     }
     for (textual, rs) in metas {
         st.stats.count(if textual { "gen.setcluster-text" } else { "gen.setcluster-compressed" });
-        run_child_setcluster(&mut cx, &mut st, textual, &rs);
+        run_child_setcluster(&mut cx, &mut st, textual, "", &rs);
+    }
+    // every hostile range shape in every place (local / peer / tagged), as a well-formed COMPRESS payload and in the
+    // textual form, each followed by a second SETCLUSTER from another connection and by probes
+    let ends: Vec<usize> = vec![16383, 16384, 65535, 1 << 32, 1 << 53, 1_000_000_000_000_000, usize::MAX];
+    let mut shapes: Vec<Vec<(usize, usize)>> = ends.iter().map(|e| vec![(0usize, *e)]).collect();
+    shapes.push(vec![(16383, 0)]);                               // start > end
+    shapes.push(vec![(300, 300), (100, 199)]);                   // unsorted
+    shapes.push(vec![(5, 1_000_000_000_000_000), (7, 9)]);
+    shapes.push(vec![(20000, 1 << 40)]);                         // entirely out of range
+    for place in ["local", "peer", "tag"] {
+        for (i, rs) in shapes.iter().enumerate() {
+            for textual in [false, true] {
+                // quick: the compressed form of everything, the textual form of every third shape
+                if textual && !args.thorough && i % 3 != 0 { continue; }
+                st.stats.count(&format!("gen.setcluster-{}-{}", if textual { "text" } else { "compressed" }, place));
+                run_child_setcluster(&mut cx, &mut st, textual, place, rs);
+            }
+        }
     }
     finish_child(st, cx);
 }
